@@ -731,6 +731,7 @@ result_t DirectProtocolHandler::setState(BusState state, result_t result, bool f
   }
 
   if (state == bs_noSignal) {  // notify all requests
+    m_device->startArbitration(SYN);  // no request is left that an arbitration still armed in the device could be for
     m_response.clear();  // notify with empty response
     while ((m_currentRequest = m_nextRequests.pop()) != nullptr) {
       m_currentRequest->notify(RESULT_ERR_NO_SIGNAL, m_response);
